@@ -254,11 +254,12 @@ Fixpoint bytes_eqb' (a b : bytes) : bool :=
   end.
 
 (* what the call did, relative to the payload of the case *)
-Inductive verdict := VSame | VOther (b : bytes) | VLimit | VCodecErr | VDiverge.
+(* VOther: returned other bytes (their length and first 32 bytes) *)
+Inductive verdict := VSame | VOther (n : Z) (b : bytes) | VLimit | VCodecErr | VDiverge.
 
 Definition verdict_of (d : bytes) (r : result) : verdict :=
   match r with
-  | Ok b => if bytes_eqb' b d then VSame else VOther b
+  | Ok b => if bytes_eqb' b d then VSame else VOther (len b) (firstn 32 b)
   | LimitErr => VLimit
   | CodecErr => VCodecErr
   | Diverge => VDiverge
@@ -302,7 +303,7 @@ Definition run_case (K : knobs) (c : case_in) : list (verdict * list Z) :=
 Definition verdict_eqb (a b : verdict) : bool :=
   match a, b with
   | VSame, VSame => true
-  | VOther x, VOther y => bytes_eqb' x y
+  | VOther n x, VOther m y => Z.eqb n m && bytes_eqb' x y
   | VLimit, VLimit => true
   | VCodecErr, VCodecErr => true
   | VDiverge, VDiverge => true
